@@ -80,6 +80,8 @@ class Project:
             return
         if path.is_dir() and not path.is_symlink():
             os.rmdir(path)
+        if not path.is_symlink() and path.is_file() and os.stat(path).st_nlink > 1:
+            replace = True      # a file with several names is edited by replacement (the model knows nothing of aliases)
         if path.is_symlink() and not replace:
             # a name that is a (possibly dangling) symbolic link of the world: the user edits the file it points to
             with open(path, "w") as f:
@@ -198,6 +200,18 @@ class Project:
             os.utime(tmp, (t, t))
             os.replace(tmp, path)
             m.user_write(op[1], op[2])
+        elif kind == "uhard":
+            # the user puts one of their own files in the target's place as a HARD LINK (ln -f mine out): the file has two
+            # names from then on
+            path = self.p / op[1]
+            tmp = path.with_name(path.name + ".rvhard")
+            if tmp.exists():
+                os.unlink(tmp)
+            os.link(self.p / op[2], tmp)
+            os.replace(tmp, path)
+            if tmp.exists():          # (rename of two names of one file does nothing)
+                os.unlink(tmp)
+            m.user_write(op[1], m.content.get(op[2]) or "")
         elif kind == "ulinkdir":
             # the user makes the name a symbolic link to one of their directories
             path = self.p / op[1]
